@@ -205,6 +205,40 @@ type InlineValB struct {
 	Tail  string
 }
 
+// Shape is an interface WITH methods: values stored in it have another memory
+// layout (itab word) than values stored in interface{}.
+type Shape interface{ Area() float64 }
+
+type Sq struct{ Side float64 }
+
+func (s Sq) Area() float64 { return s.Side * s.Side }
+
+type Circ struct {
+	R     float64
+	Label string
+}
+
+func (c *Circ) Area() float64 { return 3 * c.R * c.R }
+
+type ShapeMap map[string]Shape
+
+type Shapes struct {
+	One Shape
+	M   map[string]Shape
+	L   []Shape
+	N   ShapeMap
+	In  map[string]Shape `struct:",inline"`
+}
+
+// Odd contains a kind the library cannot fold by itself (complex128): it is
+// foldable only by an iterator that registers a user-defined folder for it.
+type Odd struct {
+	A string
+	C complex128
+	L []complex128
+	P *complex128
+}
+
 // Arrays can be folded (by reflection) but not unfolded.
 type Triple [3]int16
 
@@ -694,6 +728,16 @@ func genIfc(c *simkit.Choices, depth int) interface{} {
 	}
 }
 
+func genShape(c *simkit.Choices) Shape {
+	switch c.N(4) {
+	case 0:
+		return nil
+	case 1:
+		return Sq{Side: float64(c.N(100)) / 4}
+	}
+	return &Circ{R: float64(c.N(100)) / 2, Label: genStr(c)}
+}
+
 func genInner(c *simkit.Choices) Inner {
 	return Inner{X: int8(c.N(256)), Y: uint16(c.N(65536)), Z: genStr(c)}
 }
@@ -815,6 +859,12 @@ var Catalogue = []TypeEntry{
 	mk("map[string]float32", true, func(c *simkit.Choices) map[string]float32 {
 		return genMap(c, func(c *simkit.Choices) float32 { return math.Float32frombits(uint32(GenF32(c, false).F)) })
 	}),
+	foldOnly(mk("map[string]Shape", true, func(c *simkit.Choices) map[string]Shape { return genMap(c, genShape) })),
+	foldOnly(mk("[]Shape", true, func(c *simkit.Choices) []Shape { return genSlice(c, genShape) })),
+	foldOnly(mk("Shapes", true, func(c *simkit.Choices) Shapes {
+		return Shapes{One: genShape(c), M: genMap(c, genShape), L: genSlice(c, genShape), N: ShapeMap(genMap(c, genShape)),
+			In: map[string]Shape{"in." + GenKey(c, 6): genShape(c)}}
+	})),
 	foldOnly(mk("[3]int", false, func(c *simkit.Choices) [3]int { return [3]int{int(genI(c)), c.N(10), -c.N(10)} })),
 	foldOnly(mk("ArrHolder", true, func(c *simkit.Choices) ArrHolder {
 		return ArrHolder{A: [2]string{genStr(c), genStr(c)}, B: [3]Inner{genInner(c), {}, genInner(c)},
@@ -1152,13 +1202,14 @@ var families = map[string][]string{
 	"ints": {"[]int8", "[]int16", "[]int32", "[]int64", "[]uint8", "[]uint16", "[]uint32", "[]uint64", "[]uint", "[]int", "SmallPtrs", "[3]int", "ArrHolder",
 		"map[string]int8", "map[string]int16", "map[string]int32", "map[string]int64", "map[string]uint", "map[string]uint8", "map[string]uint16", "map[string]uint32", "map[string]uint64", "map[string]float32", "map[string]float64", "[]float32", "[]float64"},
 	"kv":     {"OrderedKV", "WithKV", "map[string]string", "Strs"},
+	"shape":  {"map[string]Shape", "[]Shape", "Shapes", "map[string]interface{}", "[]interface{}"},
 	"folder": {"WithFolder", "InlineFolder", "InlineIfc", "InlineMap", "InlineTyped", "map[string]interface{}"},
 	"local":  {"local-A.record", "local-B.record"},
 	"inline": {"InlinePtrA", "InlinePtrB", "InlineValB", "InlineIfc", "InlineMap", "Inline2", "Inner", "[]*Inner"},
 	"ifc":    {"interface{}", "[]interface{}", "map[string]interface{}", "[]map[string]interface{}", "Strs", "Tagged"},
 }
 
-var familyNames = []string{"wrap", "inline", "ints", "packed", "inner", "named", "score", "simple", "kv", "folder", "local", "ifc"}
+var familyNames = []string{"wrap", "inline", "ints", "shape", "packed", "inner", "named", "score", "simple", "kv", "folder", "local", "ifc"}
 
 // PickRelated draws n types; half of the time all from one family (types
 // that contain each other), else independently.
